@@ -209,20 +209,24 @@ Section Semantics.
     filter (fun h => mem f (deps P h)) (dom P).
 
   (* Store::put for an analysed file / Store::keep for a restored one, then set_dependents for
-     every file from the fresh dependency graph *)
-  Definition new_entry (s : state) (analysed : list file) (fc : file * content) : file * entry :=
+     every file that has dependents in the fresh dependency graph (type_dag::dependent_files
+     lists only files with a non-empty set: a kept entry otherwise keeps its old dependents) *)
+  Definition kept_dependents (P : proj) (old : list file) (f : file) : list file :=
+    match dependents_in P f with [] => old | d => d end.
+
+  Definition new_entry (s : state) (analysed : list file) (fc : file * content) : entry :=
     let f := fst fc in
     let P := s_src s in
     let sec := secs_of (s_cfg s) in
     if mem f analysed
-    then (f, mkEntry (hash (snd fc)) (cacheable P sec f) (dependents_in P f))
+    then mkEntry (hash (snd fc)) (cacheable P sec f) (dependents_in P f)
     else match lookup (eff_manifest s) f with
-         | Some e => (f, mkEntry (e_hash e) (e_frag e) (dependents_in P f))
-         | None => (f, mkEntry (hash (snd fc)) false (dependents_in P f))   (* unreachable *)
+         | Some e => mkEntry (e_hash e) (e_frag e) (kept_dependents P (e_dependents e) f)
+         | None => mkEntry (hash (snd fc)) false (dependents_in P f)   (* unreachable *)
          end.
 
   Definition new_manifest (s : state) (analysed : list file) : manifest :=
-    map (new_entry s analysed) (s_src s).
+    map (fun fc => (fst fc, new_entry s analysed fc)) (s_src s).
 
   (* CheckError::append_cached + drop_cached_duplicates for one restored file:
      fresh (re-derived) diagnostics, plus the cached ones no fresh one covers *)
